@@ -114,6 +114,19 @@ def jobs(tier, seed, prop):
                 out.append(Job("limits.full_tensor_clamp", base + ctext + ft + cf.text(("harness",), ["h_full_tensor_clamp"]), "h_full_tensor_clamp",
                                unwind=nd + 2, timeout=300, functions=["%s:%d %s" % (f["file"], f["line"], f["name"])], info=finfo, bounded="dimensions <= %d" % nd,
                                label=f["name"] + " (F11)"))
+    if prop == "C07":
+        from . import tables
+        Rm = X.Rules()
+        enumt = tables.cut_enum("TypeRefinement", Rm)[0]
+        ut, uinfo = limits.emit_buildUpdateMap_classic(Rm)
+        cfu = ContractFile("contracts/updatemap.c")
+        npnt = 3 if tier == "quick" else 4
+        out.append(Job("limits.buildUpdateMap", '#include "tsg_shim.h"\nint tsg_exc;\n#define TSG_NP %d\n' % npnt + enumt + '#line 1 "/verif/contracts/updatemap.c"\n' + cfu.text(("text",)) + ut + cfu.text(("harness",)),
+                       "h_buildUpdateMap", unwind=2 * npnt + 3, timeout=300, backends=[[], ["--sat-solver", "cadical"]],
+                       functions=["%s:%d %s" % (f["file"], f["line"], f["name"]) for f in uinfo["functions"]], info=uinfo,
+                       bounded="points <= %d, outputs <= 2, dimensions <= 2 (full unwinding with unwinding assertions)" % npnt,
+                       assumed=["R13: the criterion c*|s|/norm <= tolerance is an uninterpreted deterministic predicate of its four operands", "getNormalization returns arbitrary values (stub)"],
+                       label="buildUpdateMap classic criterion: which correction, coefficient and norm meet (F4)"))
     if prop == "C08":
         lc = cf.loops()["growloop"][0]
         gtext = [t for k, a, t in cf.sections if k == "text"][2]
